@@ -294,6 +294,7 @@ func (f *dnsFwd) Close() error {
 
 type dnsOp struct {
 	cli            int
+	resolver       int // 0/1: which resolver the client addressed (matters for questions routed as-is)
 	idx            int
 	name           int
 	qname          string
@@ -345,6 +346,7 @@ type dnsWorld struct {
 	names  []int // indices into dnsAllNames used in this run
 	ups    []*dnsUp
 	asis   netip.AddrPort
+	asis2  netip.AddrPort // a second resolver clients address their questions to: as-is answers are scoped by resolver
 	cfg    dnsCfg
 	rules  *dnsRuleSet
 	gen    int // routing generation (reload swaps)
@@ -409,6 +411,7 @@ func dnsNewWorld(s *verifsim.Sim, mode int) *dnsWorld {
 	w := &dnsWorld{s: s, T: s.T, mode: mode, log: logger, spec: map[[3]int]dnsAnsSpec{}, vers: map[[3]int]int{},
 		chains: map[string]*dnsChain{}, curOp: map[string]*dnsOp{}, curFwd: map[string]*dnsFwd{}, evictCause: map[*DnsCache]string{}, entryBitmap: map[*DnsCache][]uint32{}, liveWrapped: map[*DnsCache]bool{}, lastAns: map[[3]int]*dnsAns{}, overlapZeroed: map[string]bool{}}
 	w.asis = netip.MustParseAddrPort("10.9.9.9:53")
+	w.asis2 = netip.MustParseAddrPort("10.9.9.10:53")
 	return w
 }
 
@@ -418,6 +421,10 @@ func dnsNewWorld(s *verifsim.Sim, mode int) *dnsWorld {
 func (w *dnsWorld) specOf(up, name int, qtype uint16) dnsAnsSpec {
 	k := [3]int{up, name, dnsTypeIdx(qtype)}
 	sp, ok := w.spec[k]
+	if !ok && up > len(w.ups) {
+		// the second as-is resolver answers by the script drawn for the first one (its answers are its own)
+		return w.specOf(len(w.ups), name, qtype)
+	}
 	if !ok {
 		if k[2] >= 3 {
 			// SVCB / HTTPS questions (derived from TXT draws) use the script of the name's TXT answers
@@ -859,6 +866,9 @@ func (w *dnsWorld) upByAddr(addr string) int {
 	if addr == w.asis.String() {
 		return len(w.ups)
 	}
+	if addr == w.asis2.String() {
+		return len(w.ups) + 1
+	}
 	return -1
 }
 
@@ -1056,6 +1066,9 @@ func (w *dnsWorld) deliver(q *dnsUpQuery, payload []byte) bool {
 func (w *dnsWorld) upAddr(up int) netip.AddrPort {
 	if up < len(w.ups) {
 		return w.ups[up].addr
+	}
+	if up == len(w.ups)+1 {
+		return w.asis2
 	}
 	return w.asis
 }
@@ -1551,8 +1564,8 @@ func (w *dnsWorld) installSendHook() {
 			if a == to {
 				for _, op := range w.ops {
 					if op.cli == ci && !op.done && op.task != "" {
-						if from != w.asis {
-							w.s.Failf("c09-reply-from-wrong-source", "reply to client c%d sent from %v, the question was addressed to %v", ci, from, w.asis)
+						if from != w.resolverAddr(op) {
+							w.s.Failf("c09-reply-from-wrong-source", "reply to client c%d sent from %v, the question was addressed to %v", ci, from, w.resolverAddr(op))
 						}
 						w.onClientReply(op, append([]byte(nil), data...))
 						return nil
@@ -1593,7 +1606,7 @@ func (w *dnsWorld) doOp(op *dnsOp, timeout time.Duration) {
 	ctl := w.ctl
 	op.task = verifsim.TaskName()
 	op.gen = w.gen
-	op.key = w.keyOf(op.name, op.qtype)
+	op.key = w.opKey(op)
 	op.expectReject = op.key.scope == -1
 	op.reloadOverlap = w.reloads
 	op.rs = w.rules
@@ -1608,7 +1621,7 @@ func (w *dnsWorld) doOp(op *dnsOp, timeout time.Duration) {
 	msg.RecursionDesired = true
 	msg.Question = []dnsmessage.Question{{Name: op.qname, Qtype: op.qtype, Qclass: dnsmessage.ClassINET}}
 	src := w.clientAddr(op.cli)
-	req := &udpRequest{realSrc: src, realDst: w.asis, src: src, routingResult: &bpfRoutingResult{}}
+	req := &udpRequest{realSrc: src, realDst: w.resolverAddr(op), src: src, routingResult: &bpfRoutingResult{}}
 	var rw dnsmessage.ResponseWriter
 	if op.viaUDP {
 		req.lConn = &net.UDPConn{}
@@ -1635,6 +1648,24 @@ func (w *dnsWorld) doOp(op *dnsOp, timeout time.Duration) {
 	}
 	w.opsDone++
 	w.afterOp(op)
+}
+
+// resolverAddr: the DNS server the client addressed its question to.
+func (w *dnsWorld) resolverAddr(op *dnsOp) netip.AddrPort {
+	if op.resolver == 1 {
+		return w.asis2
+	}
+	return w.asis
+}
+
+// opKey: the cache scope of a client question; questions routed as-is are scoped by the resolver addressed.
+func (w *dnsWorld) opKey(op *dnsOp) dnsKey {
+	k := w.keyOf(op.name, op.qtype)
+	if k.scope == len(w.ups) && op.resolver == 1 {
+		k.scope++
+		w.s.Probe("dns.as-is-question-to-the-second-resolver")
+	}
+	return k
 }
 
 func (w *dnsWorld) keyOf(name int, qtype uint16) dnsKey {
